@@ -16,6 +16,24 @@ Four families of cases ("parts"):
   via      - <= 3 concurrent Circuit.stream_via()-style connections, every interleaving of their
              atoms with unrelated streams, circuit events and a lagging control connection
   priority - PriorityAttacher composition
+
+Clauses (sentence of the statement -> clause name):
+  "every new attachable stream results in exactly one decision"      one_decision_per_new_stream
+  "the circuit the attacher returned (known, BUILT)"                 decision_is_returned_circuit
+  "'let Tor choose' when it returned no preference"                  no_preference_lets_tor_choose
+  "nothing at all when it returned the do-not-attach marker"         do_not_attach_sends_nothing
+  "... or the target is a .exit address"                             exit_target_sends_nothing
+  "invalid answers are reported and send nothing"                    invalid_answer_reported_and_nothing_sent
+  "a connection made through a specific circuit is attached to
+   exactly that circuit, matched by local source address and port"   via_circuit_exact
+  "unrelated streams are never captured by it"                       unrelated_never_captured
+  "installing a second, different attacher is refused"               second_attacher_refused
+  "removing the attacher tells Tor to resume attaching"              remove_resumes_tor_attaching
+  (implied by the two above: installing tells Tor to stop)           install_takes_over_attaching
+  (PriorityAttacher docstring: most important live sub-attacher
+   with a preference wins; removed ones are not asked)               priority_attacher_order / _answer / _removed_not_consulted
+The circuit table used by the oracle is the scripted Tor's own (last CIRC state it announced),
+evaluated at the moment the attacher's answer is delivered.
 """
 from twin import control_session  # noqa: F401  (silences Twisted's stderr logging)
 
@@ -62,6 +80,8 @@ class Tor(object):
         self.lines = []                      # every command line received, in order
         self.inbuf = b''
         self.next_stream = 100
+        self.budget = 600                    # command lines accepted per case (a looping library must not hang the check)
+        self.runaway = False
         self.proto = None
         self.transport = None
 
@@ -94,6 +114,11 @@ class Tor(object):
                 return n
             line, self.inbuf = self.inbuf.split(CRLF, 1)
             n += 1
+            self.budget -= 1
+            if self.budget < 0:
+                self.runaway = True
+                self.inbuf = b''
+                return n
             self._command(line.decode('ascii', 'replace'))
 
     def _circ_line(self, cid):
@@ -206,6 +231,15 @@ class Tor(object):
         return 'STREAM %d %s 0 %s%s' % (sid, state, target, (' ' + extra) if extra else '')
 
     def circ_event(self, cid, state):
+        """control-spec 4.1.1: LAUNCHED -> EXTENDED* [-> GUARD_WAIT] -> BUILT -> CLOSED, or -> FAILED before BUILT;
+        a transition a Tor cannot make is ignored (returns False)"""
+        old = self.circs.get(cid)
+        if old in ('CLOSED', 'FAILED'):
+            return False
+        if old == 'BUILT' and state != 'CLOSED':
+            return False
+        if old in ('LAUNCHED', 'EXTENDED', 'GUARD_WAIT') and state not in ('EXTENDED', 'GUARD_WAIT', 'BUILT', 'FAILED'):
+            return False
         self.circs[cid] = state
         extra = ''
         if state == 'CLOSED':
@@ -213,6 +247,7 @@ class Tor(object):
         elif state == 'FAILED':
             extra = ' REASON=TIMEOUT'
         self.emit('CIRC ' + self._circ_line(cid) + extra)
+        return True
 
     # ---- SOCKS port (RFC 1928)
     def socks_read(self, conn, until_request=True):
@@ -381,6 +416,12 @@ def quiet():
     finally:
         circuit_mod._get_circuit_attacher.attacher = saved
         globalLogPublisher.removeObserver(tap)
+
+
+def runaway_check(w, viol, history):
+    if w.tor.runaway:
+        viol.append(V('one_decision_per_new_stream', 'endless_command_stream',
+                      'the library sent more than 600 command lines in one short history; last: %r' % (w.tor.lines[-3:],), history))
 
 
 def V(clause, sig, what, history):
@@ -589,6 +630,7 @@ def run_answers(history):
             w.settle()
         tor.ctl_read()
 
+        runaway_check(w, viol, history)
         decisions = attach_decisions(w.lines())
         values = leave_unattached_values(w.lines())
         if not values or values[0] != '1':
@@ -989,8 +1031,7 @@ def run_via(history):
                 return True
             if p[0] == 'circ':
                 cid, st = int(p[1]), p[2]
-                tor.circ_event(cid, st)
-                if st in ('CLOSED', 'FAILED'):
+                if tor.circ_event(cid, st) and st in ('CLOSED', 'FAILED'):
                     circ_disturbed.add(cid)
                 return True
             if p[0] == 'ctl':
@@ -1025,6 +1066,7 @@ def run_via(history):
             if len(waiting) == n and not tor.ctl_read():
                 break
 
+        runaway_check(w, viol, history)
         decisions = attach_decisions(w.lines())
         announced = set(tor.streams)
         for d in decisions:
@@ -1137,7 +1179,7 @@ def _via_cases(tier, rnd):
     for ev in (['circ:3:EXTENDED', 'circ:3:BUILT'], ['circ:3:FAILED']):
         for m in _merges([full(0), ev]):
             add([_conn(0, 3)], m)
-    for ev in (['circ:1:CLOSED'], ['circ:2:CLOSED'], ['circ:1:FAILED']):
+    for ev in (['circ:1:CLOSED'], ['circ:2:CLOSED']):
         for m in _merges([full(0), ev]):
             for lag in (False, True):
                 add([_conn(0, 1)], m, lag=lag)
@@ -1172,7 +1214,7 @@ def _via_cases(tier, rnd):
     k3 = [_conn(0, 1), _conn(1, 2), _conn(2, 1)]
     all3 = list(_merges([short(0), short(1), short(2)]))
     if tier == 'quick':
-        pick = rnd.sample(all3, 250)
+        pick = rnd.sample(all3, 160)
     else:
         pick = all3
     for m in pick:
@@ -1183,8 +1225,10 @@ def _via_cases(tier, rnd):
         for m in rnd.sample(all3, 600):
             pos = rnd.randrange(len(m) + 1)
             add(k3, m[:pos] + ['u:0'] + m[pos:] + ['fin:0', 'fin:1', 'fin:2'], [rnd.choice(list(UNRELATED))])
+        for m in _merges([full(0), full(1), full(2)]):      # 34650 interleavings
+            add(k3, m)
     # seeded random: 3 connections with fin, unrelated streams, circuit events, lag
-    n = 150 if tier == 'quick' else 6000
+    n = 120 if tier == 'quick' else 6000
     for _ in range(n):
         k = rnd.randint(2, 3)
         circs = [rnd.choice([1, 2, 3]) for _ in range(k)]
@@ -1201,7 +1245,7 @@ def _via_cases(tier, rnd):
         if 3 in circs or rnd.random() < 0.3:
             ev += ['circ:3:EXTENDED', 'circ:3:BUILT'] if rnd.random() < 0.8 else ['circ:3:FAILED']
         if rnd.random() < 0.35:
-            seqs.append(['circ:%d:%s' % (rnd.choice([1, 2]), rnd.choice(['CLOSED', 'FAILED']))])
+            seqs.append(['circ:%d:CLOSED' % rnd.choice([1, 2])])
         if ev:
             seqs.append(ev)
         lag = rnd.random() < 0.4
@@ -1296,6 +1340,7 @@ def _priority_cases(tier, rnd):
 
 
 # ----------------------------------------------------------------------------------------------
+PER_KEY_CAP = 40      # violation records kept per key (all are counted in 'violation_counts')
 RUNNERS = {'answers': run_answers, 'slot': run_slot, 'via': run_via, 'priority': run_priority}
 
 
@@ -1323,6 +1368,7 @@ def twin(tier, seed):
     cases = _answers_cases(tier, rnd) + _slot_cases(tier, rnd) + _priority_cases(tier, rnd) + _via_cases(tier, rnd)
     violations, distinct, samples = [], set(), []
     per_part = {}
+    counts = {}
     evaluations = 0
     for h in cases:
         try:
@@ -1333,13 +1379,17 @@ def twin(tier, seed):
         per_part[h['part']] = per_part.get(h['part'], 0) + 1
         if _nontrivial(h):
             distinct.add(_signature(h))
-        violations.extend(v)
+        for x in v:
+            counts[x['key']] = counts.get(x['key'], 0) + 1
+            if counts[x['key']] <= PER_KEY_CAP:
+                violations.append(x)
     for part in ('via', 'answers', 'slot'):
         for h in cases:
             if h['part'] == part and _nontrivial(h):
                 samples.append(h)
                 break
     return {'evaluations': evaluations, 'distinct_nontrivial': len(distinct), 'samples': samples[:3], 'violations': violations,
+            'violation_counts': counts,
             'rule': 'one evaluation = one fresh TorState bootstrapped against a scripted Tor, then one history: (answers) streams of every kind '
                     'announced to a scripted attacher giving every answer kind immediately / by Deferred / by coroutine, with circuit state changes, '
                     'follow-up events and a prompt or lagging control connection; (slot) every sequence of install / install-other / remove / '
